@@ -1168,6 +1168,13 @@ func (fv *FV) callByContract(st *State, c *Contract, fn *types.Func, sig *types.
 	}
 	// frame
 	fv.havocFrame(st, c, env)
+	// ghost assignments of the callee: evaluated on the pre-call state
+	for _, gs := range c.GhostSets {
+		nv := fv.evalSpec(&SpecEnv{fv: fv, names: names, cur: pre, old: pre, pkg: cpkg, tsub: tsub}, gs.Expr)
+		fv.heapGet(st, ghostKey(gs.Name), "Int", types.Typ[types.Int])
+		st.heap[ghostKey(gs.Name)] = Val{T: nv.T, S: "Int", Go: types.Typ[types.Int]}
+		fv.writtenHeap[ghostKey(gs.Name)] = true
+	}
 	// the callee may have allocated
 	allocBefore := fv.allocCur(st)
 	fv.advanceAlloc(st)
@@ -1350,6 +1357,11 @@ func (fv *FV) havocSpecLoc(st *State, env *SpecEnv, a SExpr) {
 			return
 		}
 		fv.unsupported("assigns location form")
+	}
+	if id, ok := sel.X.(SIdent); ok && id.Name == "ghost" {
+		fv.heapGet(st, ghostKey(sel.Sel), "Int", types.Typ[types.Int])
+		st.heap[ghostKey(sel.Sel)] = Val{T: fv.sess.fresh("ghost_"+sel.Sel, "Int"), S: "Int", Go: types.Typ[types.Int]}
+		return
 	}
 	// Type.f form?
 	if id, ok := sel.X.(SIdent); ok {
